@@ -2,20 +2,28 @@ import Reduino.Lang.Tr
 /- C++ text of a translated program, line by line, in the emitter's own format (compared whitespace-normalised). -/
 namespace Reduino.Lang
 
-def BinOp.sym : BinOp → String | .add => "+" | .sub => "-" | .mul => "*"
+def BinOp.sym : BinOp → String
+  | .add => "+" | .sub => "-" | .mul => "*" | .band => "&" | .bor => "|" | .bxor => "^" | .fdiv => "/" | .fmod => "%"
+/-- the emitter's tokens for unary minus and `not` (the `_UN` table) -/
+def negSym : String := "-"
+def notSym : String := "!"
 def CmpOp.sym : CmpOp → String | .lt => "<" | .le => "<=" | .gt => ">" | .ge => ">=" | .eq => "==" | .ne => "!="
+
+def MinMax.name : MinMax → String | .min => "min" | .max => "max"
 
 def Expr.c : Expr → String
   | .int n => toString n
   | .bool b => if b then "true" else "false"
   | .var x => x
   | .bin op a b => s!"({a.c} {op.sym} {b.c})"
-  | .neg a => s!"(-{a.c})"
+  | .neg a => s!"({negSym}{a.c})"
   | .cmp op a b => s!"({a.c} {op.sym} {b.c})"
   | .and a b => s!"({a.c} && {b.c})"
   | .or a b => s!"({a.c} || {b.c})"
-  | .not a => s!"(!{a.c})"
+  | .not a => s!"({notSym}{a.c})"
   | .ite c a b => s!"({c.c} ? {a.c} : {b.c})"
+  | .abs a => s!"abs({a.c})"
+  | .mm k a b => s!"{k.name}({a.c}, {b.c})"
 
 def Ty.c : Ty → String | .int => "int" | .bool => "bool"
 
